@@ -31,6 +31,7 @@ import (
 	"encoding/json"
 	"fmt"
 	"strings"
+	"sync"
 
 	"github.com/apmckinlay/gsuneido/core"
 	"github.com/apmckinlay/gsuneido/db19"
@@ -727,11 +728,28 @@ func main() {
 	})
 }
 
-// failc reports a failure and counts failures that carry a precise class
-// (candidates for KNOWN_FINDINGS) per class in the evidence.
+// failc reports a failure. Failures that carry a precise class (candidates
+// for KNOWN_FINDINGS) are counted per class in the evidence; while a class is
+// not a listed known finding only its first case is reported as a violation,
+// so that one run shows every class (lib stops after 5 violations).
+var classMu sync.Mutex
+var classReported = map[string]bool{}
+
 func failc(c *lib.Ctx, class string, cs any, format string, a ...any) {
-	if class != "" {
-		c.Count("classified_failures:"+class, 1)
+	if class == "" {
+		c.Fail("", cs, format, a...)
+		return
 	}
-	c.Fail(class, cs, format, a...)
+	c.Count("classified_failures:"+class, 1)
+	classMu.Lock()
+	done := classReported[class]
+	classMu.Unlock()
+	if done {
+		return
+	}
+	if known := c.Fail(class, cs, format, a...); !known {
+		classMu.Lock()
+		classReported[class] = true
+		classMu.Unlock()
+	}
 }
